@@ -48,6 +48,8 @@ CLAIMED["C13"] = ("E-FUN", EFUN + " (RFC tokenizer, arity table); segmentation/l
     "All strings up to length L over {A,a,space,:,comma,#} through the real parser vs a reference tokenizer; 41 verbs x letter case x arity through Command::from_message and on the wire (461/421); a 3-line payload at every 1- and 2-cut segmentation, lines around the 2000-byte limit, blank lines; every relayed verb with every short text over {a,space,:} re-parsed at the receiver.", NOTE)
 CLAIMED["C17"] = ("E-SEQ", ESEQ + " with a virtual (paused tokio) clock driving the server's real timer tasks; 9 timeout configurations", "DESIGN.md §4 C17",
     "For every (ping_timeout, pong_timeout) in {1,2,3}^2 every client response pattern up to the horizon (per virtual second: silence, PONG right/wrong token, PING tok, other traffic): server PINGs on schedule, a client without an unanswered PING is never dropped, a silent one is sent ERROR and dropped within pong_timeout (+1 s) of the first unanswered PING and not before, and leaves no trace.", NOTE)
+CLAIMED["C18"] = ("E-INT", "stateless exhaustive schedule search (DFS by re-execution, optional preemption bound) over the real connection futures stepped one tokio synchronisation operation at a time; linearizability against sequential runs of the same code", "DESIGN.md §3.2, §4 C18",
+    "For 25 bursts of 2-3 connections every interleaving at the granularity of single tokio synchronisation operations (lock acquisitions, socket reads, flushes, the password-check yield) is executed on the real code; each outcome (final state, ordered replies per connection, ordered relays per sender/receiver pair, who is registered/closed) must equal the outcome of some sequential execution; plus representation invariants, deadlock detection and a PING liveness round.", "Single-threaded stepping covers multi-threaded executions up to Lipton reduction (every shared access is inside a tokio lock section, an atomic or an mpsc send); memory-ordering effects not modelled (all atomics SeqCst); bursts are small (<= 3 connections, <= 3 commands each).")
 PENDING = {}
 
 def main():
@@ -80,6 +82,8 @@ def main():
             "add_only": True,
         },
         "engines": [
+            {"name": "E-INT", "path": "/verif/mc/src/dfs.rs", "serves_properties": ["C18"],
+             "kind_free_text": "stateless schedule enumeration of real connection futures: the tokio cooperative budget is burnt to one unit before each poll so every poll performs at most one synchronisation operation; custom wakers detect lock hand-over; all schedules of a burst are enumerated by re-execution"},
             {"name": "E-FUN", "path": "/verif/mc/src/fun.rs", "serves_properties": [p for p in props if p in CLAIMED and "E-FUN" in CLAIMED[p][0]],
              "kind_free_text": "bounded-exhaustive enumeration of finite input spaces (strings over small alphabets, configuration lattices, products of conditions) through the real functions or one-step real server worlds"},
             {"name": "E-SEQ", "path": "/verif/mc/src/bfs.rs", "serves_properties": [p for p in props if p in CLAIMED and CLAIMED[p][0].startswith("E-SEQ")],
